@@ -238,6 +238,21 @@ def run(ctx):
                 ctx.check(p.has_call(H + "Field::parse") and "Continue" in [lab for _, lab, _ in p.variant_tests("Try>::branch")], "C12-b", tf.key,
                           "every field kept went through Field::parse", "a field is kept without a successful Field::parse", "", None, p.describe())
         ctx.floor("C12-b", "field-keeping iterations of Header::try_from", n, 7)
+        # what is validated is what the peer sent: Field::parse gets the decoded line's own name and value (a value that is trimmed,
+        # lower-cased or otherwise rewritten first is not the one the gate is about - CR/LF at its ends would pass)
+        npv = 0
+        for h in heads:
+            for p in ex.paths(start=h, stop_at=heads):
+                for e in p.calls(H + "Field::parse"):
+                    npv += 1
+                    a0, a1 = (e[3] + (None, None))[:2]
+                    def own(v, idx):
+                        return v is not None and v[0] == "proj" and tuple(n_.lstrip(".") for n_ in v[2]) == (idx,) and v[1][0] == "call" and \
+                            v[1][1].endswith("HeaderField::into_inner")
+                    ctx.check(own(a0, "0") and own(a1, "1"), "C12-b", tf.key, "Field::parse is given the decoded line's own name and value",
+                              "Header::try_from calls Field::parse(%s, %s): the validated bytes are not the ones the peer sent" % (pa.vfmt(a0)[:70], pa.vfmt(a1)[:70]),
+                              "", None, p.describe())
+        ctx.floor("C12-b", "Field::parse calls in Header::try_from", npv, 1)
 
     # ------------------------------------------------------------------ C12-d sending
     it = ru.need(ctx, "C12-d", "<h3::proto::headers::HeaderIter as core::iter::traits::iterator::Iterator>::next")
